@@ -68,6 +68,16 @@ def server_api_action(r, drv: Driver, retired, p=gv.SMALL):
     return ("unbind",)
 
 
+def ms_adts_notice(mid, controls=()):
+    """Active Directory's notice of disconnection: no responseName inside the ExtendedResponse, the OID in a [10] element at
+    the end of the envelope - after the controls when there are any (round-18 change C08-25)."""
+    from vf.ref import ber
+
+    root = rfc4511.Enc().message(("ExtendedResponse", mid, ((52, "", "bye", None), None, None), tuple(controls)))
+    root.children.append(ber.Node(ber.CTX, False, 10, content=NOTICE_OID.encode(), kind="TRAIL"))
+    return rfc4511.ser(root)
+
+
 def crafted_for_client(r, drv: Driver, retired):
     """Bytes a hostile/buggy server could send (reference-encoded, so independent of library packing)."""
     x = r.random()
@@ -77,6 +87,8 @@ def crafted_for_client(r, drv: Driver, retired):
     if x < 0.2:
         return rfc4511.encode(("SearchRequest", mid, ("", 2, 0, 0, 0, False, ("present", "cn"), ()), ()))
     if x < 0.26:
+        if r.random() < 0.4:
+            return ms_adts_notice(r.choice([0, mid]), r.choice([(), (("1.2.3.4", False, b"v", None),), (("1.2.3.4", True, None, None), ("2.5", False, b"", None))]))
         return rfc4511.encode(("ExtendedResponse", r.choice([0, mid]), ((52, "", "bye", None), NOTICE_OID, None), ()))
     if x < 0.3:
         return rfc4511.encode(("UnbindRequest", 0, (), ()))
